@@ -46,6 +46,7 @@ def sweep(ctx: fw.Ctx, pid: str):
             ctx.fail(key, {"text": text, **info, "output": res["output"]},
                      f"{cl} {det}: {text!r} -> {res['output']!r}" if res["output"] is not None
                      else f"{cl} {det}: {text!r}: {res['fails'].get('raises')}")
+    fragment_probes(ctx, pid)
     if not ctx.quick:
         attributed_part(ctx, pid, prog.enumerate_adjacent_pairs())
     return n
@@ -99,12 +100,18 @@ def common(ctx: fw.Ctx, pid: str):
     ctx.trusted_base = [
         "Lean 4 kernel; axioms propext, Classical.choice, Quot.sound only",
         "trivia algebra model Model/Trivia.lean tied by function-level correspondence with expressions/trivia.py",
-        "tree-sitter-nix as independent tokenizer of input and output",
+        "container-fragment model Model/Cst.lean + FromCst.lean + Rebuild.lean tied by whole-round-trip correspondence "
+        "on real tree-sitter trees (harness/cstdump.py: parser contract flatten(cst) == text checked per sample)",
+        "tree-sitter-nix as independent tokenizer of input and output; for the fragment theorems: tree-sitter returns a "
+        "well-formed Cst whose flatten is the text, and lexes the model's token/comment pieces of an output as such",
     ]
     ctx.assumptions = [
         "outputs are judged error-free modulo the formals trailing comma the bundled grammar rejects",
-        "the per-construct renderers are covered by observation of the implementation on the enumerated gaps; the "
-        "theorems cover the trivia algebra they share (see evidence.fragment)",
+        "inside the container fragment (sets with plain names, lists, leaves, line / one-line block comments, no "
+        "leading whitespace) the per-construct parse and render code is modelled and the property is proved by "
+        "structural induction (section Fragment of Props/Cxx.lean; exclusions are decidable and have counterexample "
+        "theorems); outside it the renderers are covered by observation of the implementation on the enumerated gaps; "
+        "the trivia-algebra theorems cover what all constructs share (see coverage.fragment)",
     ]
 
 
@@ -202,3 +209,195 @@ def trivia_correspondence(ctx: fw.Ctx):
                 ctx.tie_break("correspondence", f"trivia function {rq[0]} disagrees", request=rq, implementation=ex, model=got)
     ctx.count("trivia_corr_requests", len(reqs))
     ctx.count("trivia_corr_disagreements", bad)
+
+
+# ---------------------------------------------------------------- L3-L5 tie: container fragment, whole round trip
+_PY_ERR = {"ValueError": "value", "KeyError": "key", "TypeError": "type", "OSError": "os",
+           "NixSyntaxError": "syntax", "ResolutionError": "resolution"}
+
+
+def _real_roundtrip(text: str):
+    from nix_manipulator import parse
+
+    try:
+        src = parse(text)
+        if src.contains_error:
+            return ["flagged-erroneous"]
+        return ["ok", fw.hx(src.rebuild())]
+    except Exception as exc:  # noqa: BLE001
+        n = type(exc).__name__
+        return ["err", _PY_ERR.get(n, "internal:" + n)]
+
+
+def fragment_inputs(ctx: fw.Ctx):
+    """(origin, text) of every input of the fragment tie: (a) every template x gap x trivia-menu entry
+    of the sweep, (b) random fragment programs. Membership in the fragment is decided afterwards."""
+    from .gen import frag
+
+    for info, text in prog.enumerate_injections():
+        yield "sweep", text
+    n = 2400 if ctx.quick else 30000
+    outs = []
+    for text in frag.programs(ctx.rng, n):
+        yield "random", text
+        if len(outs) < (800 if ctx.quick else 10000):
+            r = _real_roundtrip(text)
+            if r[0] == "ok":
+                outs.append(fw.unhx(r[1]))
+    # (c) second-pass inputs: texts the implementation itself wrote (canonical layout); the parser
+    # contract and the tie are checked on them like on any other input
+    for text in outs:
+        yield "output", text
+
+
+def fragment_correspondence(ctx: fw.Ctx):
+    """Model/Cst.lean + FromCst.lean + Rebuild.lean vs source_code.py / set.py / binding.py / list.py /
+    primitive.py / trivia.py, whole round trip: the REAL tree-sitter tree of every input that lies in
+    the container fragment is converted to the model's `Cst` (harness/cstdump.py; the parser contract
+    `flatten(cst) == text` is checked on the way), the Lean driver parses and rebuilds it with the
+    model, and the text must equal `parse(text).rebuild()` of the implementation. On the same inputs
+    the piece-level renderer (the one the theorems are about) must concatenate to the same text and
+    its token / comment pieces must be exactly the leaves tree-sitter finds in the real output (the
+    assumption `concat pieces lexes to pieces`, checked per sample)."""
+    from . import cstdump
+    from .oracle import cstread
+
+    cov = {"sweep_inputs": 0, "sweep_inside": 0, "random_inputs": 0, "random_inside": 0, "output_inputs": 0,
+           "output_inside": 0, "output_fixed_points": 0, "outside": {},
+           "model_uncovered": {}, "compared": 0, "disagreements": 0, "contract_checked": 0}
+    texts, reqs = [], []
+    for origin, text in fragment_inputs(ctx):
+        cov[origin + "_inputs"] += 1
+        try:
+            tree = cstdump.dump(text)
+        except cstdump.OutsideFragment as exc:
+            why = str(exc)
+            cov["outside"][why] = cov["outside"].get(why, 0) + 1
+            continue
+        except cstdump.ContractBroken as exc:
+            ctx.tie_break("parser-contract", str(exc), request={"text": text})
+            continue
+        cov["contract_checked"] += 1
+        sx = cstdump.sexp(tree)
+        texts.append((origin, text, tree))
+        reqs.append(["roundtrip", sx])
+        reqs.append(["pieces", sx])
+        reqs.append(["flatten", sx])
+        reqs.append(["facts", sx])
+        reqs.append(["norm", sx])
+    replies = ctx.driver.ask_many(reqs)
+    bad = 0
+    hyp = {"inputs": 0, "orderOk": 0, "beforeFlatB": 0, "safe": 0, "spacing_nf": 0, "tokens": 0}
+    for k, (origin, text, tree) in enumerate(texts):
+        got, pieces, flat, facts, norm = (replies[5 * k + n] for n in range(5))
+        if facts and facts[0] == "ok":
+            # the decidable hypotheses / conclusions of the fragment theorems on this input, evaluated by
+            # the compiled model: C01.frag_tokens_preserved and frag_safe have no exclusion, C18.frag_spacing_nf
+            # holds under beforeFlatB. An instance contradicting a theorem means the driver does not run
+            # the model the theorems are about.
+            o_ok, clean, safe, nf, tk = (x == "t" for x in facts[1:6])
+            hyp["inputs"] += 1
+            hyp["orderOk"] += o_ok
+            hyp["beforeFlatB"] += clean
+            hyp["safe"] += safe
+            hyp["spacing_nf"] += nf
+            hyp["tokens"] += tk
+            if not safe or not tk or (clean and not nf):
+                bad += 1
+                if bad <= 5:
+                    ctx.tie_break("theorem-instance", "the compiled model contradicts a fragment theorem on this input",
+                                  request={"text": text}, model=facts)
+        if flat != ["ok", fw.hx(text)]:
+            bad += 1
+            if bad <= 5:
+                ctx.tie_break("correspondence", "model flatten(cst) differs from the text the tree was parsed from",
+                              request={"text": text}, implementation=fw.hx(text), model=flat)
+            continue
+        if got and got[0] == "uncovered":
+            cov["model_uncovered"][got[1]] = cov["model_uncovered"].get(got[1], 0) + 1
+            continue
+        cov[origin + "_inside"] += 1
+        cov["compared"] += 1
+        ctx.corr_checked += 1
+        want = _real_roundtrip(text)
+        if want != got:
+            bad += 1
+            if bad <= 5:
+                ctx.tie_break("correspondence", "fragment round trip: implementation and model disagree",
+                              request={"text": text},
+                              implementation=fw.unhx(want[1]) if want[0] == "ok" else want,
+                              model=fw.unhx(got[1]) if got[0] == "ok" else got)
+            continue
+        if got[0] != "ok":
+            continue
+        out = fw.unhx(got[1])
+        if origin == "output" and out == text:
+            cov["output_fixed_points"] += 1
+        if norm and norm[0] == "ok":
+            # comment-free input: C06.frag_fixed_point_comment_free names the tree of the output, `File.norm f`.
+            # Its text must be the output and it must be, node by node, the tree tree-sitter returns for the
+            # output (the parser-contract step of the theorem).
+            cov["comment_free"] = cov.get("comment_free", 0) + 1
+            try:
+                real_tree = cstdump.sexp(cstdump.dump(out))
+            except (cstdump.OutsideFragment, cstdump.ContractBroken) as exc:
+                real_tree = ["<" + type(exc).__name__ + ">", str(exc)]
+            if fw.unhx(norm[1]) != out or norm[2] != real_tree:
+                bad += 1
+                if bad <= 5:
+                    ctx.tie_break("parser-contract", "File.norm f is not the tree tree-sitter returns for the output",
+                                  request={"text": text}, implementation=real_tree, model=norm[2])
+        if not pieces or pieces[0] != "ok":
+            bad += 1
+            if bad <= 5:
+                ctx.tie_break("correspondence", "piece-level renderer failed where the string-level one did not",
+                              request={"text": text}, model=pieces)
+            continue
+        ps = [(p[0], fw.unhx(p[1])) for p in pieces[1:]]
+        if "".join(t for _, t in ps) != out:
+            bad += 1
+            if bad <= 5:
+                ctx.tie_break("correspondence", "pieces do not concatenate to the rebuilt text", request={"text": text},
+                              implementation=out, model=ps)
+            continue
+        root = cstread.ts_parse(out)
+        ob = out.encode("utf-8")
+        leaves = [("c" if n.type == "comment" else "t", ob[n.start_byte:n.end_byte].decode("utf-8"))
+                  for n in cstread.leaves(root) if n.end_byte > n.start_byte]
+        mine = [(k2, t) for k2, t in ps if k2 != "w"]
+        if root.has_error or leaves != mine:
+            # not a tie break by itself: the output is what the implementation produced; it is the
+            # property checks (C01 tokens / C03 comments) that judge it. Counted for the record.
+            ctx.count("fragment_pieces_not_lexed_as_such")
+    cov["disagreements"] = bad
+    cov["theorem_hypotheses"] = hyp
+    ctx.count("fragment_corr_compared", cov["compared"])
+    ctx.count("fragment_corr_disagreements", bad)
+    ctx.extra["fragment"] = cov
+
+
+# ---------------------------------------------------------------- inputs of the fragment counterexample theorems
+# (Lean theorem, property, text): the concrete Cst of a `cex_*` theorem of the fragment sections, as
+# text. The oracle is evaluated on the IMPLEMENTATION; a failure is a property failure like any other
+# (classified with parent "<fragment>" and the theorem's name), so an open defect stays visible on
+# every run and a repaired one makes the `cex_*` theorem the thing that breaks the tie.
+FRAGMENT_PROBES = [
+    ("Nima.C03.cex_comment_overtakes", "C03", "[ x\n /* b */ /* c */ y ]"),
+    ("Nima.C03.cex_comment_overtakes", "C03", "x\n# a\n/* b */ /* c */\n"),
+    ("Nima.C18.cex_block_comment_after_opener", "C18", "{ /* c */ a = 1; }"),
+    ("Nima.C06.cex_comment_around_semicolon", "C06", "{ a = 1 # c\n; # d\n}"),
+]
+
+
+def fragment_probes(ctx: fw.Ctx, pid: str):
+    clauses = CLAUSES.get(pid, ())
+    for thm, prop, text in FRAGMENT_PROBES:
+        if prop != pid:
+            continue
+        res = layout.evaluate(text)
+        ctx.case({"text": text, "template": "fragment-probe", "theorem": thm}, True)
+        for cl, det in failures_of(res, clauses):
+            ctx.fail({"clause": cl, "detail": det, "parent": "<fragment>", "cex": thm, "before": "", "after": "",
+                      "leading_ws": False},
+                     {"text": text, "output": res["output"], "theorem": thm},
+                     f"{cl} {det}: {text!r} -> {res['output']!r} (counterexample of {thm})")
